@@ -21,7 +21,8 @@ func init() {
 			"(cleanup) the per-interface-name clean-up operations of the function that deletes an active workload and of the interface-rename block of resolveWorkloadEndpoints are the same set, and every one in the rename block is keyed by the OLD endpoint's name; " +
 			"(haskey) wherever a map field of endpointManager is tested for a key and then deleted from / stored to under that test, the tested key and the used key are the same; " +
 			"(index) every store into activeWlEndpoints is paired with the store of the reverse index activeWlIfaceNameToID[workload.Name]=id; " +
-			"(adminup) routes are programmed (SetRoutes with non-nil targets) only under State==\"active\" of the same workload whose name keys the call, and the same flag is what the chain renderer receives.",
+			"(adminup) routes are programmed (SetRoutes with non-nil targets) only under State==\"active\" of the same workload whose name keys the call, and the same flag is what the chain renderer receives; " +
+			"(shadow) a copy of an endpoint that the manager remembered (value of activeWlEndpoints/shadowedWlEndpoints) is re-queued into pendingWlEpUpdates[k] only where k — or every candidate chosen for k — has no pending entry in the same loop iteration (the datastore's pending update/remove is newer), and activeWlEndpoints / shadowedWlEndpoints stay disjoint: a store into one is paired on every path with the removal from the other or a test that the key is not there.",
 		NotDecided: "Contents of the maps after a given history (e.g. that chains removed really are the old endpoint's); the guards under which the sibling clean-up operations run (bpfEnabled) are not compared; operations taking the whole workload object (callbacks, QoS) are compared only if they carry a name-keyed operation missing on the other side; route contents; for chainrecord: that the record maps start out equal to the table (empty/empty), that the key under which a fresh record map entry is removed from the old record matches (generation-swap shape), and record maps that are not used as a diff gate (activeWlIDToChains).",
 		Assumptions: []string{
 			"go/types + go/ssa (x/tools v0.50.0) model of the current source, CGO_ENABLED=0 build",
@@ -68,6 +69,26 @@ func init() {
 			{Name: "removed untracked host chains stay in the record (record never replaced)", File: "felix/dataplane/linux/endpoint_mgr.go",
 				Old: "\tm.activeHostIfaceToRawChains = newHostIfaceRawChains\n", New: "",
 				Expect: "C44.chainrecord/remove/endpointManager.updateHostEndpoints/activeHostIfaceToRawChains"},
+			{Name: "F22A re-introduced: promotion scan re-queues a shadowed endpoint over its own pending entry", File: "felix/dataplane/linux/endpoint_mgr.go",
+				Old:    "\t\t\t\t\t\tif _, pending := m.pendingWlEpUpdates[sId]; pending {\n\t\t\t\t\t\t\t// This batch also updates or removes the shadowed endpoint.\n\t\t\t\t\t\t\t// That pending entry supersedes our shadow copy and will be\n\t\t\t\t\t\t\t// resolved in its own right (re-shadowing the endpoint if\n\t\t\t\t\t\t\t// need be); promoting the shadow copy would overwrite it,\n\t\t\t\t\t\t\t// resurrecting a removed endpoint or reverting an update.\n\t\t\t\t\t\t\tdelete(m.shadowedWlEndpoints, sId)\n\t\t\t\t\t\t\tcontinue\n\t\t\t\t\t\t}\n",
+				New:    "",
+				Expect: "C44.shadow/pending/endpointManager.resolveWorkloadEndpoints/shadowed"},
+			{Name: "F22B re-introduced: an endpoint that becomes active through its own update keeps its shadow copy", File: "felix/dataplane/linux/endpoint_mgr.go",
+				Old:    "\t\t\t\tdelete(m.shadowedWlEndpoints, id)\n\n\t\t\t\tif m.isQoSBandwidthSupported() {",
+				New:    "\n\t\t\t\tif m.isQoSBandwidthSupported() {",
+				Expect: "C44.shadow/exclusive/active/endpointManager.resolveWorkloadEndpoints"},
+			{Name: "F24 re-introduced: an active endpoint renamed onto an interface owned by a preferred endpoint is shadowed but stays active on its old interface", File: "felix/dataplane/linux/endpoint_mgr.go",
+				Old:    "\t\t\t\t\t\tif oldWorkload != nil {\n\t\t\t\t\t\t\t// This endpoint was active (on another interface) until\n\t\t\t\t\t\t\t// now; it must not stay active there while it is shadowed.\n\t\t\t\t\t\t\tremoveActiveWorkload(logCxt, oldWorkload, id)\n\t\t\t\t\t\t}\n\t\t\t\t\t\tm.shadowedWlEndpoints[id] = workload\n",
+				New:    "\t\t\t\t\t\tm.shadowedWlEndpoints[id] = workload\n",
+				Expect: "C44.shadow/exclusive/shadowed/endpointManager.resolveWorkloadEndpoints/pending-id"},
+			{Name: "dirty-policy re-queue of the active copy overwrites a pending update/remove of the same endpoint", File: "felix/dataplane/linux/endpoint_mgr.go",
+				Old:    "\t\tif _, ok := m.pendingWlEpUpdates[wepID]; ok {\n\t\t\tcontinue // Already have an update, skip the scan.\n\t\t}\n",
+				New:    "",
+				Expect: "C44.shadow/pending/endpointManager.markEPsWithDirtyPolicies/active"},
+			{Name: "live-migration re-queue of the active copy tests another map for the pending entry", File: "felix/dataplane/linux/endpoint_mgr.go",
+				Old:    "\tif _, alreadyPending := m.pendingWlEpUpdates[id]; !alreadyPending {\n\t\tif ep := m.activeWlEndpoints[id]; ep != nil {",
+				New:    "\tif _, alreadyPending := m.shadowedWlEndpoints[id]; !alreadyPending {\n\t\tif ep := m.activeWlEndpoints[id]; ep != nil {",
+				Expect: "C44.shadow/pending/endpointManager.OnLiveMigrationStateUpdate/active"},
 		},
 	})
 	dplinuxFixtureFilter(registry["C44"])
@@ -134,6 +155,9 @@ func runC44(c *Ctx) {
 	x.index()
 	x.adminup()
 	x.chainrecord()
+
+	c.Rule("C44.shadow", "E-GUARD/E-PAIR", "(pending) a copy of an endpoint the manager remembered (activeWlEndpoints / shadowedWlEndpoints value) is stored into pendingWlEpUpdates[k] only where, in the same loop iteration, k — or every candidate chosen for k — was found to have no pending entry; (exclusive) every store into activeWlEndpoints[id] is paired on every path with delete(shadowedWlEndpoints, id), every store into shadowedWlEndpoints[k] with k leaving the active set or a test that k is not active", 6)
+	x.shadow()
 }
 
 // ------------------------------------------------------------------ helpers --
